@@ -21,7 +21,7 @@ _driver = {}
 
 
 def coq_files():
-    return [f for f in vlib.coq_files(CODEC) if f not in ("Extract.v",)]
+    return [f for f in vlib.coq_files(CODEC) if f not in ("Extract.v", "GenStream.v")]
 
 
 CODEC_REQUIRES = ["FlacCodec.Wf", "FlacCodec.Spec", "FlacCodec.Stream", "FlacCodec.Progress", "FlacCodec.Props_codec", "FlacCodec.Pins"]
@@ -47,7 +47,8 @@ def proof_stage(chk, pid, theorems=None, requires=None):
         chk, coq_dirs=[BASE, CODEC], build_dir=CODEC, qflags="-Q ../base FlacBase -Q . FlacCodec",
         requires=reqs, theorems=thms,
         obligation_files=[(BASE, ["Res.v", "Bits.v", "Crc.v", "Pins.v"]), (CODEC, coq_files())],
-        gen_steps=["python3 %s/tools/gen_crc.py %s %s/GenCrc.v" % (VERIF, vlib.REPO, BASE)])
+        gen_steps=["python3 %s/tools/gen_crc.py %s %s/GenCrc.v" % (VERIF, vlib.REPO, BASE),
+                   "python3 %s/tools/gen_stream.py %s %s/GenStream.v" % (VERIF, vlib.REPO, CODEC)])
 
 
 def build_driver(chk):
